@@ -225,7 +225,7 @@ func Verify(opts Options) int {
 	}
 	for _, r := range rr.Results {
 		ok := r.V.Status == "discharged" || r.V.Status == "covered" || r.V.Status == "covered-unknown" ||
-			(r.V.Status == "vacuous" && strings.Contains(r.O.Name, "#cover.return."))
+			(r.V.Status == "vacuous" && (strings.Contains(r.O.Name, "#cover.return.") || strings.Contains(r.O.Name, "#cover.call.")))
 		if !ok {
 			bad++
 		}
